@@ -187,16 +187,37 @@ def extract_func(src, name):
     return None if end < 0 else src[m.start():end + 3]
 
 
+def extract_closure(src, roots, skip=()):
+    """roots plus every top-level function of the same file they (transitively) call: a refactoring that moves part of a
+    copied function into a helper next to it keeps the copy complete. Returns (ordered names, {name: text}, missing roots)."""
+    tops = re.findall(r"^func (\w+)\(", src, re.M)
+    texts, order, missing = {}, [], []
+    todo = list(roots)
+    while todo:
+        n = todo.pop(0)
+        if n in texts or n in skip:
+            continue
+        t = extract_func(src, n)
+        if t is None:
+            if n in roots:
+                missing.append(n)
+            continue
+        texts[n] = t
+        order.append(n)
+        body = re.sub(r"//[^\n]*", "", re.sub(r"/\*.*?\*/", "", t[t.index("{"):], flags=re.S))   # calls in comments do not count
+        for h in tops:
+            if h not in texts and h not in todo and h not in skip and re.search(r"\b%s\(" % re.escape(h), body):
+                todo.append(h)
+    return order, texts, missing
+
+
 def run_env(ck):
     """portEnv (package main) compiled verbatim into harness/cmd/authenv; model/AuthEnv.v port_env on the same environments"""
     src = open(os.path.join(vcheck.REPO, "main.go")).read()
     parts, missing = [], []
-    for n in ("boolEnv", "portCHEnv", "portEnv"):
-        t = extract_func(src, n)
-        if t is None:
-            missing.append(n)
-        else:
-            parts.append("// ---- main.go: func %s\n%s" % (n, t))
+    order, texts, missing = extract_closure(src, ["portEnv", "portCHEnv", "boolEnv"],
+                                            skip=("main", "init", "initFlags", "initDB", "initPyro", "httpStart"))
+    parts = ["// ---- main.go: func %s\n%s" % (n, texts[n]) for n in order]
     if not ck.obligation("portEnv, portCHEnv and boolEnv found in main.go", not missing, "missing: %s" % missing):
         return
     gdir = os.path.join(vcheck.BUILD, "gen", vcheck.repo_tag())
